@@ -199,7 +199,9 @@ func vpIngressSocks(c *config.Config) {
 func vpExitFull(forward map[string]string, ftDir string) func(*config.Config) {
 	return func(c *config.Config) {
 		c.Exit.Enabled = true
-		c.Exit.Routes = []string{"127.0.0.0/8"}
+		// the ingress refuses UDP ASSOCIATE unless a route covers 0.0.0.0 (its sanity check
+		// looks up that address), so UDP needs a default route somewhere in the mesh
+		c.Exit.Routes = []string{"127.0.0.0/8", "0.0.0.0/0"}
 		c.UDP.Enabled = true
 		for k, t := range forward {
 			c.Forward.Endpoints = append(c.Forward.Endpoints, config.ForwardEndpoint{Key: k, Target: t})
